@@ -443,6 +443,67 @@ func (c *Ctx) stringElems(v ssa.Value) ([]string, bool) {
 		}
 	case *ssa.Parameter:
 		return []string{"<args...>"}, true
+	case *ssa.MakeSlice:
+		// s := make([]string, K+len(rest)); s[0] = …; …; copy(s[K:], rest)
+		elems := map[int64]string{}
+		var tailAt int64 = -1
+		var tail []string
+		okShape := true
+		for _, r := range *s.Referrers() {
+			switch x := r.(type) {
+			case *ssa.IndexAddr:
+				idx, ok := constInt(x.Index)
+				if !ok || idx < 0 {
+					okShape = false
+					continue
+				}
+				for _, rr := range *x.Referrers() {
+					if st, ok := rr.(*ssa.Store); ok && st.Addr == ssa.Value(x) {
+						if str, ok := constStr(st.Val); ok {
+							elems[idx] = str
+						} else {
+							elems[idx] = "<dyn>"
+						}
+					}
+				}
+			case *ssa.Slice:
+				lo, ok := int64(0), true
+				if x.Low != nil {
+					lo, ok = constInt(x.Low)
+				}
+				if !ok || x.High != nil {
+					continue
+				}
+				for _, rr := range *x.Referrers() {
+					if call, ok := rr.(*ssa.Call); ok && isBuiltin(&call.Call, "copy") && call.Call.Args[0] == ssa.Value(x) {
+						sub, ok := c.stringElems(c.resolve(call.Call.Args[1]))
+						if !ok {
+							sub = []string{"<args...>"}
+						}
+						tailAt, tail = lo, sub
+					}
+				}
+			}
+		}
+		if !okShape || len(elems) == 0 {
+			return nil, false
+		}
+		var out []string
+		for i := int64(0); ; i++ {
+			if i == tailAt {
+				out = append(out, tail...)
+				break
+			}
+			e, ok := elems[i]
+			if !ok {
+				if tailAt < 0 && int(i) == len(elems) {
+					break
+				}
+				return nil, false
+			}
+			out = append(out, e)
+		}
+		return out, true
 	}
 	return nil, false
 }
@@ -745,4 +806,62 @@ func factsOnEdge(from, to *ssa.BasicBlock) []condFact {
 		}
 	}
 	return out
+}
+
+// throughLocalStruct looks through a copy kept in a field of a local struct
+// (`h := header{oid: obj.OID}; use(h.oid)`): a load of a field of a local
+// that has exactly one store yields the stored value.
+func (c *Ctx) throughLocalStruct(v ssa.Value) ssa.Value {
+	for i := 0; i < 6; i++ {
+		v = c.resolve(v)
+		var base ssa.Value
+		field := -1
+		switch x := v.(type) {
+		case *ssa.UnOp:
+			if x.Op != token.MUL {
+				return v
+			}
+			fa, ok := x.X.(*ssa.FieldAddr)
+			if !ok {
+				return v
+			}
+			base, field = fa.X, fa.Field
+		case *ssa.Field:
+			if u, ok := x.X.(*ssa.UnOp); ok && u.Op == token.MUL {
+				base, field = u.X, x.Field
+			} else {
+				return v
+			}
+		default:
+			return v
+		}
+		al, ok := base.(*ssa.Alloc)
+		if !ok {
+			return v
+		}
+		var stored ssa.Value
+		n := 0
+		whole := false
+		for _, r := range *al.Referrers() {
+			switch y := r.(type) {
+			case *ssa.FieldAddr:
+				if y.Field != field {
+					continue
+				}
+				for _, st := range storesTo(y) {
+					stored = st.Val
+					n++
+				}
+			case *ssa.Store:
+				if y.Addr == ssa.Value(al) {
+					whole = true
+				}
+			}
+		}
+		if n != 1 || whole {
+			return v
+		}
+		v = stored
+	}
+	return v
 }
